@@ -266,7 +266,7 @@ class PersLandscapeExact(PersLandscape):
         # (as Python floats: b + d of int8 / uint8 rows would wrap around)
         for i in range(len(A)):
             A[i] = [float(v) for v in A[i]]
-        if A[-1][1] == np.inf:
+        if A and A[-1][1] == np.inf:
             A.pop(-1)
 
         landscape_idx = 0
